@@ -15,6 +15,7 @@ import (
 func init() {
 	rt.Register("H_C13_try", H_C13_try)
 	rt.Register("H_C13_reuse", H_C13_reuse)
+	rt.Register("H_C13_nested", H_C13_nested)
 }
 
 // H_C13_reuse: an Either that is kept (bound to a name) and used as the receiver of two
@@ -46,6 +47,44 @@ func H_C13_reuse() {
 	if ok && len(arr.Elems) == 5 {
 		rt.Assert(arr.Elems[0] == object.BuiltInTrue && arr.Elems[1] == object.BuiltInTrue && isInt(arr.Elems[2], 7) && isNil(arr.Elems[3]) && arr.Elems[4] == object.BuiltInTrue, "a kept failed Either keeps its error whatever is derived from it")
 	}
+}
+
+// H_C13_nested: an Either is also an ordinary value.  A step that SUCCEEDS with an Either as
+// its result (failed or not) makes a successful chain holding that Either; a chain started
+// on an Either calls its steps on that Either.
+func H_C13_nested() {
+	h := NewH()
+	v := rt.Int64()
+	rt.Assume(v > 2 && v < 1000)
+	h.Set("v", object.NewPanInt(v))
+	failedInner := rt.Bool()
+	if failedInner {
+		h.Eval(`inner := v.try.{|x| x / 0}`)
+	} else {
+		h.Eval(`inner := v.try.+(1)`)
+	}
+	inner := h.Eval(`inner`)
+	form := rt.Choice(3)
+	src := []string{`1.try.{|x| inner}`, `{get: m{inner}}.try.get`, `1.try.+(1).{|x| inner}`}[form]
+	rt.Note(src)
+	r := h.EvalNoPanic(src)
+	_, raised := r.(*object.PanErr)
+	rt.Assert(!raised, "a chain started with try must not raise")
+	h.Set("r", r)
+	rt.Assert(h.EvalNoPanic(`r.err?`) == object.BuiltInFalse && h.EvalNoPanic(`r.val?`) == object.BuiltInTrue, "a step that returns an Either did not fail: the chain reports success")
+	rt.Assert(h.EvalNoPanic(`r.val`) == inner, "val is the value the step returned (the inner Either itself)")
+	rt.Assert(isNil(h.EvalNoPanic(`r.err`)), "err is nil when no step failed")
+	a, ok := h.EvalNoPanic(`r.A`).(*object.PanArr)
+	rt.Assert(ok && len(a.Elems) == 2 && a.Elems[0] == inner && isNil(a.Elems[1]), "A is [value, nil] when no step failed")
+	rt.Assert(h.EvalNoPanic(`r.abandon`) == inner, "abandon returns the value when no step failed")
+	// a chain started on an Either: its steps are called on that Either
+	q := h.EvalNoPanic(`inner.try.{|e| e.err?}.A`)
+	qa, ok := q.(*object.PanArr)
+	want := object.BuiltInFalse
+	if failedInner {
+		want = object.BuiltInTrue
+	}
+	rt.Assert(ok && len(qa.Elems) == 2 && qa.Elems[0] == want && isNil(qa.Elems[1]), "a chain started on an Either value calls its steps with that Either")
 }
 
 func arrOfIntNil(o object.PanObject, v int64) bool {
